@@ -50,6 +50,46 @@ def gen_net(rng, i):
     return {"id": f"net{i}", "vars": vars_, "order": order}
 
 
+def fixed_nets():
+    """shapes the random generator rarely hits: parents whose domain sizes differ from the child's (row addressing of a
+    table with several parents), twin variables (same domain, parents and table) of which only one is a parent"""
+    def rows(n, k, salt):
+        out = []
+        for i in range(n):
+            base = [F(1 + ((i * 3 + j * 5 + salt) % 7), 16) for j in range(k - 1)]
+            out.append(base + [1 - sum(base)])
+        return out
+    nets = []
+    nets.append({"id": "fix-sizes-232", "order": [2, 0, 1], "vars": [
+        {"name": "season", "dom": ["dry", "wet"], "parents": [], "cpt": rows(1, 2, 1)},
+        {"name": "soil", "dom": ["sand", "loam", "clay"], "parents": [], "cpt": rows(1, 3, 2)},
+        {"name": "crop", "dom": ["poor", "good"], "parents": [0, 1], "cpt": rows(6, 2, 3)}]})
+    nets.append({"id": "fix-sizes-223", "order": [0, 2, 1], "vars": [
+        {"name": "a", "dom": ["0", "1"], "parents": [], "cpt": rows(1, 2, 2)},
+        {"name": "b", "dom": ["yes", "no"], "parents": [0], "cpt": rows(2, 2, 4)},
+        {"name": "c", "dom": ["low", "mid", "high"], "parents": [0, 1], "cpt": rows(4, 3, 1)}]})
+    nets.append({"id": "fix-sizes-322", "order": [1, 2, 0], "vars": [
+        {"name": "a", "dom": ["v1", "v2", "v3"], "parents": [], "cpt": rows(1, 3, 3)},
+        {"name": "b", "dom": ["yes", "no"], "parents": [], "cpt": rows(1, 2, 5)},
+        {"name": "c", "dom": ["0", "1"], "parents": [0, 1], "cpt": rows(6, 2, 6)}]})
+    tw = rows(2, 2, 2)
+    nets.append({"id": "fix-twins", "order": [5, 2, 0, 3, 1, 4], "vars": [
+        {"name": "root", "dom": ["yes", "no"], "parents": [], "cpt": rows(1, 2, 1)},
+        {"name": "mid", "dom": ["yes", "no"], "parents": [0], "cpt": rows(2, 2, 3)},
+        {"name": "level", "dom": ["low", "mid", "high"], "parents": [1], "cpt": rows(2, 3, 2)},
+        {"name": "sensorA", "dom": ["0", "1"], "parents": [0], "cpt": tw},
+        {"name": "sensorB", "dom": ["0", "1"], "parents": [0], "cpt": [list(r) for r in tw]},
+        {"name": "alarm", "dom": ["0", "1"], "parents": [2, 4], "cpt": rows(6, 2, 4)}]})
+    nets.append({"id": "fix-twins2", "order": [0, 1, 2, 3, 4, 5], "vars": [
+        {"name": "root", "dom": ["yes", "no"], "parents": [], "cpt": rows(1, 2, 2)},
+        {"name": "sensorA", "dom": ["0", "1"], "parents": [0], "cpt": tw},
+        {"name": "sensorB", "dom": ["0", "1"], "parents": [0], "cpt": [list(r) for r in tw]},
+        {"name": "mid", "dom": ["yes", "no"], "parents": [0], "cpt": rows(2, 2, 5)},
+        {"name": "level", "dom": ["low", "mid", "high"], "parents": [3], "cpt": rows(2, 3, 1)},
+        {"name": "alarm", "dom": ["0", "1"], "parents": [1, 4], "cpt": rows(6, 2, 6)}]})
+    return nets
+
+
 def fl(x):
     return repr(float(x))
 
@@ -139,7 +179,7 @@ def main(tier, seed):
     run = Run("C15", "model_checking", tier, seed)
     quick = run.tier == "quick"
     rng = random.Random(run.seed)
-    nets = [gen_net(rng, i) for i in range(8 if quick else 60)]
+    nets = [gen_net(rng, i) for i in range(8 if quick else 60)] + fixed_nets()
     items = []
     for net in nets:
         variants = [("table", None), ("entries", None), ("mix", None), ("mix", None)]
